@@ -68,6 +68,8 @@ class HintExec:
             if k == "downcast":
                 continue
             if k == "field":
+                if e.get("adt") == "core::option::Option" or (i > 0 and proj[i - 1]["k"] == "downcast"):
+                    continue      # payload of a transparent Option (a tuple value here is the payload itself)
                 if isinstance(v, tuple) and v and v[0] in ("tuple", "clo"):
                     items = v[1] if v[0] == "tuple" else v[2]
                     v = items[e["i"]] if e["i"] < len(items) else UNK
@@ -256,6 +258,26 @@ class HintExec:
                             val = self._call_closure(f, [], env, polled, crossed)
                     else:
                         val = x
+            elif c.name in (OPT + "map_or", OPT + "map_or_else") and len(c.args) == 3:
+                x = self.norm(env, self.op(env, c.args[0]))
+                if isinstance(x, tuple) and x and x[0] == "opt":
+                    return self._fork(x[1], b, bb, env, polled, crossed, path, top, out)
+                dflt, f = self.op(env, c.args[1]), self.op(env, c.args[2])
+                if x == NONE:
+                    if c.name == OPT + "map_or":
+                        val = self.norm(env, dflt)
+                    elif isinstance(dflt, tuple) and dflt and dflt[0] == "clo":
+                        val = self._call_closure(dflt, [], env, polled, crossed)
+                elif x != UNK and isinstance(f, tuple) and f and f[0] == "clo":
+                    val = self._call_closure(f, [x], env, polled, crossed)
+            elif c.name in (OPT + "unwrap_or", OPT + "unwrap_or_default") and c.args:
+                x = self.norm(env, self.op(env, c.args[0]))
+                if isinstance(x, tuple) and x and x[0] == "opt":
+                    return self._fork(x[1], b, bb, env, polled, crossed, path, top, out)
+                if x == NONE:
+                    val = self.norm(env, self.op(env, c.args[1])) if len(c.args) == 2 else UNK
+                else:
+                    val = x
             if t.get("dest") is not None:
                 self.write(env, t["dest"]["local"], t["dest"]["proj"], val)
             if t.get("target") is None:
